@@ -174,7 +174,7 @@ def _mask_dump(t):
 
 
 def _has_zero_column_block(text):
-    """a SELECTED_OUTPUT block with -reset false that names no column"""
+    """a SELECTED_OUTPUT block that names no column (and does not say -reset true)"""
     blocks = re.split(r"(?mi)^\s*SELECTED_OUTPUT\b", text)[1:]
     for b in blocks:
         body = []
@@ -185,7 +185,7 @@ def _has_zero_column_block(text):
             if not t.startswith("-"):
                 break
             body.append(t.lower())
-        if any(x.startswith("-reset") and "false" in x for x in body):
+        if not any(x.startswith("-reset") and "true" in x for x in body):      # under IPhreeqc every column switch is off unless the block turns it on
             cols = [x for x in body if not x.startswith(("-reset", "-high", "-file", "-user_punch", "-active")) and not x.endswith("false")]
             if not cols:
                 return True
